@@ -324,6 +324,48 @@ func C07(c *fw.Ctx) {
 			}
 		}
 	}
+	// forms the grammar derives although a careful author would not write them: repeated property names
+	// in a literal (every arrangement of up to four entries over two names), repeated parameter names, a
+	// parameter named like its function, a function declared twice, a variable named like a function --
+	// at the top level, inside a function, as a call argument, as a prompt line
+	{
+		var lits []string
+		names := []string{"a", "b"}
+		for n := 2; n <= 4; n++ {
+			for code := 0; code < 1<<uint(n); code++ {
+				var parts []string
+				for i := 0; i < n; i++ {
+					parts = append(parts, fmt.Sprintf("%s: %d", names[(code>>uint(i))&1], i+1))
+				}
+				lits = append(lits, "{"+strings.Join(parts, ", ")+"}")
+			}
+		}
+		lits = append(lits, "{a: {a: 1, a: 2}, a: 3}", "{a: [1, {b: 1, b: 2}], b: 2, a: nil}")
+		P, V, F, R := model.KwPrint, model.KwVar, model.KwFun, model.KwReturn
+		for _, l := range lits {
+			if !c.Mine() {
+				continue
+			}
+			sane(c, P+" "+l+";\n"+V+" o = "+l+";\n"+P+" o.a;\n"+P+" "+model.BiKeys+"(o);\n"+P+" "+model.BiValues+"(o);\n", "", "repeated-property-names|top", false)
+			sane(c, F+" mk() { "+R+" "+l+"; }\n"+P+" mk();\n"+P+" mk().a;\n", "", "repeated-property-names|function", false)
+			sane(c, P+" "+model.BiLen+"("+model.BiKeys+"("+l+"));\n", "", "repeated-property-names|argument", false)
+			sane(c, l+";\n"+l+".a;\n", "", "repeated-property-names|prompt", true)
+		}
+		for _, src := range []string{
+			F + " f(a, a) { " + R + " a; }\n" + P + " f(1, 2);\n",
+			F + " f(a, b, a) { " + R + " a + b; }\n" + P + " f(1, 2, 3);\n",
+			F + " f(f) { " + R + " f; }\n" + P + " f(1);\n" + P + " f(f);\n",
+			F + " f(f, f) { " + R + " f; }\n" + P + " f(1, 2);\n",
+			F + " g() { " + R + " 1; }\n" + F + " g() { " + R + " 2; }\n" + P + " g();\n",
+			F + " g() { " + R + " 1; }\n" + V + " g = 5;\n" + P + " g;\n",
+			V + " g = 5;\n" + F + " g() { " + R + " 1; }\n" + P + " g();\n",
+			F + " g() { " + F + " g() { " + R + " 1; } " + R + " g; }\n" + P + " g()();\n",
+		} {
+			if c.Mine() {
+				sane(c, src, "", "unusual-declarations", false)
+			}
+		}
+	}
 	// names and expressions quoted by diagnostics: every fault form that mentions a name or prints an
 	// expression, with names of every length 1..70 and 100/200/300 over three alphabets (ASCII, Bangla,
 	// Bangla with combining marks) and receiver chains of 1..8 links
